@@ -4,7 +4,7 @@ use crate::obs::Obs;
 use crate::sets::*;
 use crate::walk::walk_table;
 use read_fonts::collections::IntSet;
-use read_fonts::tables::cmap::{Cmap, Cmap12IterLimits, CmapSubtable};
+use read_fonts::tables::cmap::{Cmap, Cmap12, Cmap12IterLimits, Cmap14, Cmap4, CmapSubtable};
 use read_fonts::tables::glyf::{Glyf, Glyph, PointFlags};
 use read_fonts::tables::loca::Loca;
 use read_fonts::traversal::SomeTable;
@@ -45,6 +45,62 @@ impl<'f, 'a> Env<'f, 'a> {
 
 // ------------------------------------------------------------------ cmap
 
+/// `Cmap4::iter` under the work monitor: format 4 maps 16-bit code points, so a
+/// correct iterator (start and end of every segment clamped to the running end)
+/// yields at most 65 536 pairs whatever the segments look like.
+pub fn cmap4_iter(o: &mut Obs, t: &Cmap4, digest_cap: usize) {
+    o.drain("Cmap4::iter", "65536", 65_536, digest_cap, t.iter(), |o, (c, g)| {
+        o.d.u32(c);
+        o.d.u32(g.to_u32());
+    });
+}
+
+/// `Cmap12::iter_with_limits` under the work monitor. Every pair has a code
+/// point <= max_char (ascending, each at most once) and every group contributes
+/// at most glyph_count pairs: min(max_char + 1, num_groups x glyph_count).
+pub fn cmap12_iter_with_limits(o: &mut Obs, t: &Cmap12, lim: Cmap12IterLimits, digest_cap: usize) {
+    let by_char = lim.max_char as u64 + 1;
+    let by_groups = (t.groups().len() as u64).saturating_mul(lim.glyph_count as u64);
+    o.drain("Cmap12::iter_with_limits", "min(max_char+1,num_groups*glyph_count)", by_char.min(by_groups), digest_cap, t.iter_with_limits(lim), |o, (c, g)| {
+        o.d.u32(c);
+        o.d.u32(g.to_u32());
+    });
+}
+
+/// Number of mappings a format 14 subtable encodes, counted record by record
+/// (every selector: sum of (additionalCount + 1) over its default UVS ranges +
+/// number of non-default UVS mappings); stops counting above `stop`.
+fn cmap14_encoded_mappings(t: &Cmap14, stop: u64) -> u64 {
+    let mut sum = 0u64;
+    for vs in t.var_selector() {
+        if let Some(Ok(d)) = vs.default_uvs(t.offset_data()) {
+            for r in d.ranges() {
+                sum += r.additional_count() as u64 + 1;
+                if sum > stop {
+                    return sum;
+                }
+            }
+        }
+        if let Some(Ok(nd)) = vs.non_default_uvs(t.offset_data()) {
+            sum += nd.uvs_mapping().len() as u64;
+        }
+        if sum > stop {
+            return sum;
+        }
+    }
+    sum
+}
+
+/// `Cmap14::iter` under the work monitor: at most the number of encoded mappings.
+pub fn cmap14_iter(o: &mut Obs, t: &Cmap14, digest_cap: usize) {
+    let ceiling = cmap14_encoded_mappings(t, crate::obs::DRAIN_MAX_CEILING);
+    o.drain("Cmap14::iter", "sum(defaultUVS.additionalCount+1)+sum(numUVSMappings)", ceiling, digest_cap, t.iter(), |o, (c, s, v)| {
+        o.d.u32(c);
+        o.d.u32(s);
+        o.d.dbg(&v);
+    });
+}
+
 pub fn cmap(o: &mut Obs, env: &Env, cmap: &Cmap) {
     let font = env.font;
     for cp in CODEPOINTS {
@@ -83,14 +139,7 @@ pub fn cmap(o: &mut Obs, env: &Env, cmap: &Cmap) {
                     o.helper("Cmap4::map_codepoint");
                     o.opt(&t.map_codepoint(cp));
                 }
-                o.helper("Cmap4::iter");
-                let mut n = 0u64;
-                for (c, g) in t.iter().take(iter_cap) {
-                    o.d.u32(c);
-                    o.d.u32(g.to_u32());
-                    n += 1;
-                }
-                o.d.u64(n);
+                cmap4_iter(o, t, iter_cap);
             }
             CmapSubtable::Format12(t) => {
                 let mut cps: Vec<u32> = CODEPOINTS.to_vec();
@@ -119,15 +168,9 @@ pub fn cmap(o: &mut Obs, env: &Env, cmap: &Cmap) {
                     Cmap12IterLimits::default(),
                     Cmap12IterLimits { max_char: 0, glyph_count: 0 },
                     Cmap12IterLimits { max_char: u32::MAX, glyph_count: u32::MAX },
+                    Cmap12IterLimits { max_char: 0xFFFF, glyph_count: env.num_glyphs.max(1) },
                 ] {
-                    o.helper("Cmap12::iter_with_limits");
-                    let mut n = 0u64;
-                    for (c, g) in t.iter_with_limits(lim).take(iter_cap) {
-                        o.d.u32(c);
-                        o.d.u32(g.to_u32());
-                        n += 1;
-                    }
-                    o.d.u64(n);
+                    cmap12_iter_with_limits(o, t, lim, iter_cap);
                 }
             }
             CmapSubtable::Format14(t) => {
@@ -142,15 +185,7 @@ pub fn cmap(o: &mut Obs, env: &Env, cmap: &Cmap) {
                         o.opt(&t.map_variant(*cp, *s));
                     }
                 }
-                o.helper("Cmap14::iter");
-                let mut n = 0u64;
-                for (c, s, v) in t.iter().take(iter_cap) {
-                    o.d.u32(c);
-                    o.d.u32(s);
-                    o.d.dbg(&v);
-                    n += 1;
-                }
-                o.d.u64(n);
+                cmap14_iter(o, t, iter_cap);
                 // re-query what the iterator produced
                 for (c, s, _) in t.iter().take(16) {
                     o.opt(&t.map_variant(c, s));
@@ -186,9 +221,14 @@ pub fn bytecode(o: &mut Obs, code: &[u8]) {
     use read_fonts::tables::glyf::bytecode::{decode_all, Decoder};
     let n = code.len();
     for pc in [0usize, 1, n.wrapping_sub(1), n, n + 1, usize::MAX] {
-        o.helper("bytecode::decode_all");
-        let mut k = 0u32;
-        for ins in decode_all(code, pc).take(70_000) {
+        // (every instruction is at least one byte long: at most len - pc instructions and one error)
+        let mut failed = false;
+        let until_error = decode_all(code, pc).take_while(move |r| {
+            let go = !failed;
+            failed |= r.is_err();
+            go
+        });
+        let k = o.drain("bytecode::decode_all", "len-pc+1", (n - pc.min(n)) as u64 + 1, 70_000, until_error, |o, ins| {
             match ins {
                 Ok(ins) => {
                     o.d.str(ins.opcode.name());
@@ -198,18 +238,14 @@ pub fn bytecode(o: &mut Obs, code: &[u8]) {
                     for v in ins.inline_operands.values().take(256) {
                         o.d.i64(v as i64);
                     }
-                    if k < 8 {
+                    if ins.pc < pc.saturating_add(24) {
                         o.d.str(&ins.to_string());
                     }
                 }
-                Err(_) => {
-                    o.d.bytes(&[0xEE]);
-                    break;
-                }
+                Err(_) => o.d.bytes(&[0xEE]),
             }
-            k += 1;
-        }
-        o.d.u32(k);
+        });
+        o.d.u64(k);
         if pc > n {
             let mut d = Decoder::new(code, pc);
             o.d.bytes(&[d.decode().is_none() as u8]);
@@ -229,13 +265,10 @@ pub fn glyph_helpers<'a>(o: &mut Obs, env: &Env, glyph: &Glyph<'a>, walk_generic
             o.d.u64(n as u64);
             o.helper("SimpleGlyph::has_overlapping_contours");
             o.d.bytes(&[g.has_overlapping_contours() as u8]);
-            o.helper("SimpleGlyph::points");
-            let mut k = 0u64;
-            for p in g.points().take(pt_cap) {
+            // (the last end point is a u16 and last + 1 must not overflow: at most 65 535 points)
+            o.drain("SimpleGlyph::points", "65535", 65_535, pt_cap, g.points(), |o, p| {
                 o.d.i64(((p.x as i64) << 20) ^ ((p.y as i64) << 1) ^ p.on_curve as i64);
-                k += 1;
-            }
-            o.d.u64(k);
+            });
             // read_points_fast with exact and off-by-one buffer sizes
             for len in [n, n.wrapping_sub(1), n + 1, 0] {
                 if len > 70_000 {
@@ -285,23 +318,18 @@ pub fn glyph_helpers<'a>(o: &mut Obs, env: &Env, glyph: &Glyph<'a>, walk_generic
             o.d.u64(g.glyph_data().len() as u64);
         }
         Glyph::Composite(g) => {
-            o.helper("CompositeGlyph::components");
-            let mut k = 0u64;
-            for c in g.components().take(pt_cap) {
+            // a component record is at least flags + glyph id + two byte arguments = 6 bytes, all of which must be read
+            let comp_len = g.component_data().len() as u64;
+            o.drain("CompositeGlyph::components", "component_bytes/6", comp_len / 6, pt_cap, g.components(), |o, c| {
                 o.d.dbg(&c);
                 o.d.dbg(&c.anchor.compute_flags());
                 o.d.dbg(&c.transform.compute_flags());
-                k += 1;
-            }
-            o.d.u64(k);
-            o.helper("CompositeGlyph::component_glyphs_and_flags");
-            let mut k = 0u64;
-            for (gid, fl) in g.component_glyphs_and_flags().take(pt_cap) {
+            });
+            // (the id/flags iterator reads 4 bytes per component and skips the rest unchecked)
+            o.drain("CompositeGlyph::component_glyphs_and_flags", "component_bytes/4", comp_len / 4, pt_cap, g.component_glyphs_and_flags(), |o, (gid, fl)| {
                 o.d.u32(gid.to_u32());
                 o.d.dbg(&fl);
-                k += 1;
-            }
-            o.d.u64(k);
+            });
             o.helper("CompositeGlyph::count_and_instructions");
             let (n, ins) = g.count_and_instructions();
             o.d.u64(n as u64);
@@ -421,13 +449,12 @@ pub fn metrics(o: &mut Obs, env: &Env, want: &dyn Fn(&[&[u8; 4]]) -> bool) {
                 o.d.dbg(&sd.map(|s| s.as_str().len()));
             }
             if let Some(sd) = post.string_data() {
-                o.helper("Post::string_data.iter");
-                for s in sd.iter().take(env.cap(70_000, 300)) {
-                    match s {
-                        Ok(s) => o.d.str(s.as_str()),
-                        Err(e) => o.err(&e),
-                    }
-                }
+                // (a Pascal string is at least its length byte)
+                let post_len = post.offset_data().len() as u64;
+                o.drain("Post::string_data.iter", "post_bytes", post_len, env.cap(70_000, 300), sd.iter(), |o, s| match s {
+                    Ok(s) => o.d.str(s.as_str()),
+                    Err(e) => o.err(&e),
+                });
             }
         }
     }
@@ -441,12 +468,8 @@ pub fn metrics(o: &mut Obs, env: &Env, want: &dyn Fn(&[&[u8; 4]]) -> bool) {
                 o.d.bytes(&[rec.is_unicode() as u8]);
                 match rec.string(sd) {
                     Ok(s) => {
-                        let mut n = 0u32;
-                        for c in s.chars().take(8192) {
-                            o.d.u32(c as u32);
-                            n += 1;
-                        }
-                        o.d.u32(n);
+                        // (every char consumes at least one byte of the string data)
+                        let n = o.drain("NameString::chars", "record_length", rec.length() as u64, 8192, s.chars(), |o, c| o.d.u32(c as u32));
                         if n < 256 {
                             o.d.str(&s.to_string());
                             o.d.dbg(&s);
@@ -460,9 +483,7 @@ pub fn metrics(o: &mut Obs, env: &Env, want: &dyn Fn(&[&[u8; 4]]) -> bool) {
                     o.helper("LangTagRecord::lang_tag");
                     match rec.lang_tag(sd) {
                         Ok(s) => {
-                            for c in s.chars().take(8192) {
-                                o.d.u32(c as u32);
-                            }
+                            o.drain("NameString::chars(lang_tag)", "record_length", rec.length() as u64, 8192, s.chars(), |o, c| o.d.u32(c as u32));
                         }
                         Err(e) => o.err(&e),
                     }
@@ -534,15 +555,14 @@ pub fn metrics(o: &mut Obs, env: &Env, want: &dyn Fn(&[&[u8; 4]]) -> bool) {
     }
     if want(&[b"ltag"]) {
         if let Ok(ltag) = font.ltag() {
-            o.helper("Ltag::tag_indices");
             let mut first: Option<String> = None;
-            for (i, s) in ltag.tag_indices().take(4096) {
+            o.drain("Ltag::tag_indices", "numTags", ltag.tag_ranges().len() as u64, 4096, ltag.tag_indices(), |o, (i, s)| {
                 o.d.u32(i);
                 o.d.str(s);
                 if first.is_none() {
                     first = Some(s.to_string());
                 }
-            }
+            });
             for t in ["en", "", "zh-Hant", first.as_deref().unwrap_or("x")] {
                 o.helper("Ltag::index_for_tag");
                 o.opt(&ltag.index_for_tag(t));
@@ -556,12 +576,11 @@ pub fn metrics(o: &mut Obs, env: &Env, want: &dyn Fn(&[&[u8; 4]]) -> bool) {
                 o.helper("DataMapRecord::data");
                 match rec.data(meta.offset_data()) {
                     Ok(Metadata::ScriptLangTags(tags)) => {
-                        for t in tags.iter().take(4096) {
-                            match t {
-                                Ok(t) => o.d.str(t.as_str()),
-                                Err(e) => o.err(&e),
-                            }
-                        }
+                        // (every tag consumes at least one byte of the record's data)
+                        o.drain("Metadata::ScriptLangTags.iter", "data_length", rec.data_length() as u64, 4096, tags.iter(), |o, t| match t {
+                            Ok(t) => o.d.str(t.as_str()),
+                            Err(e) => o.err(&e),
+                        });
                     }
                     Ok(Metadata::Other(b)) => {
                         o.d.u64(b.len() as u64);
